@@ -474,6 +474,7 @@ def correspondence(ctx, model_ok=True):
                    "real code is left in place (immaterial by C11_corr*/C12)",
            "samples": cases[:3], "model_runner": "Eval vm_compute in generated cases files (sharded coqc)",
            "failures": [], "broken": []}
+    out["all_cases"] = cases          # the driver runs the property oracle on these as well
     if not model_ok:
         out["broken"].append({"what": "correspondence not run: the model's proofs/definitions did not build"})
         return out
